@@ -228,6 +228,7 @@ func labelVarCase(c varCase, o *Obs) (nontrivial bool) {
 	o.Label("form:" + c.Form)
 	o.LabelIf(c.Format == "gff" && c.GFF.SpecPhases, "gff:spec-phases")
 	o.LabelIf(c.Format == "gff" && c.GFF.SortRows, "gff:coordinate-sorted-rows")
+	o.LabelIf(c.Format == "gff" && c.GFF.ParentAttr, "gff:parent-attributes")
 	names, views, err := c.queryViews()
 	if err != nil {
 		return false
@@ -300,7 +301,7 @@ func genVarCase(t *rapid.T, emphasis string) varCase {
 	c := varCase{Format: rapid.SampledFrom([]string{"gb", "gff"}).Draw(t, "format")}
 	c.Form = rapid.SampledFrom([]string{"msa", "msa", "sam"}).Draw(t, "form")
 	ao := annoGenOpts{minRef: 20, maxRef: ifThorough(300, 90), maxFeats: ifThorough(6, 4), allowUnnamed: c.Format == "gff", iupacOutside: true}
-	c.GFF = gffOpts{SequenceRegion: rapid.Bool().Draw(t, "seqRegion"), WithFasta: true, GeneRows: rapid.Bool().Draw(t, "geneRows"), SortRows: rapid.Bool().Draw(t, "sortRows")}
+	c.GFF = gffOpts{SequenceRegion: rapid.Bool().Draw(t, "seqRegion"), WithFasta: true, GeneRows: rapid.Bool().Draw(t, "geneRows"), SortRows: rapid.Bool().Draw(t, "sortRows"), ParentAttr: rapid.IntRange(0, 2).Draw(t, "parentAttr") == 0}
 	if c.Format == "gff" {
 		switch rapid.IntRange(0, 2).Draw(t, "gffDialect") {
 		case 0:
